@@ -1449,11 +1449,10 @@ async fn run_op(
                 }
             }
         }
-        OpKind::U2fVersion { le } => {
-            let mut frame = vec![0x00, 0x03, 0x00, 0x00, 0x00, 0x00, 0x00];
-            if *le {
-                frame.extend_from_slice(&[0, 0]);
-            }
+        OpKind::U2fVersion { le: _, le_val } => {
+            // case 2E of ISO 7816-4: CLA INS P1 P2 00 Le1 Le2 (no data)
+            let mut frame = vec![0x00, 0x03, 0x00, 0x00, 0x00];
+            frame.extend_from_slice(&le_val.to_be_bytes());
             resolved.u2f_frame = Some(frame.clone());
             match passkey_types::u2f::Request::try_from(frame.as_slice()) {
                 Ok(r) => match r.data {
